@@ -19,6 +19,8 @@ def run(ctx, R, tier):
     mix(F, R)
     clamps(F, R)
     zero_div(F, R)
+    from .c02 import nested_slices
+    R.floor('B.C13.slice', nested_slices(F, R, rule='B.C13.slice'), 1)
     from ..enginea import run_engine_a
     run_engine_a(R, F, groups=('rt',), effects=('panic',), loops=False, rule_prefix='A', fn_filter=lambda fn: 'effect::' in fn)
 
